@@ -6,7 +6,7 @@ import random
 from ..lib import cbuild, tlc
 from ..lib.common import workdir, rmworkdir, seed, log, MachineryError, WORK
 from ..lib.report import Report
-from ..drivers import ctlgen, pipedrv
+from ..drivers import ctlgen, pipedrv, replaylib
 
 PID = 'C01'
 KINDS = ('random', 'prefix', 'text', 'zeros', 'code', 'code')
@@ -39,6 +39,8 @@ def worker(args):
         c['mem'] = full[start:end]
         c['ignored'] = ign
         c['kind'] = kind
+        # what --replay needs to rebuild the input without the scratch files: the image as loaded, and the options without paths
+        c['image'], c['org'], c['user_opts'], c['wrap'] = mem, org, opts, int(wrap)
         # with Wrap=1 an instruction starting before 65536 may run past it: those bytes are outside [start,end)
         out.append(c)
     return out
@@ -78,3 +80,34 @@ def run(tier):
                 'Opcodes, Timings, Text, InstructionWidth, Semicolons, Wrap); distinct_nontrivial = distinct (image class, ctl, options)')
     rmworkdir('c01')
     return rep.finish()
+
+
+def replay(path):
+    """./check C01 --replay replays/C01-n.json : write the recorded image and control file again, rerun sna2skool and
+    skool2bin of the current tree on them with the recorded options, judge again."""
+    d, rp = replaylib.load(path, PID)
+    replaylib.need(rp, path, 'start', 'end', 'ctl')
+    start, end, ctl = rp['start'], rp['end'], rp['ctl']
+    if 'image' in rp:
+        image, org, opts, wrap = rp['image'], rp['org'], rp['user_opts'], rp['wrap']
+    else:
+        # replay file written before the image was recorded: the bytes of [start,end) are known, those between ORG and
+        # START are not (zeros); the options are what follows '-c <deleted file>' on the recorded command line
+        replaylib.need(rp, path, 'opts', 'mem')
+        o = rp['opts']
+        org = int(o[o.index('-o') + 1])
+        image = [0] * (start - org) + rp['mem']
+        opts = o[o.index('-c') + 2:]
+        wrap = 0          # 'Wrap=1' is still at the end of opts
+    wd = workdir('replay-c01')
+    cbuild.repo_only()
+    c = pipedrv.pipeline(wd, 0, image, org, start, end, ctl, opts, wrap)
+    full = [0] * 65536
+    full[org:org + len(image)] = image
+    c['mem'] = full[start:end]
+    c['ignored'] = rp.get('ignored', [])
+    slim = [{k: c[k] for k in ('start', 'end', 'mem', 'ignored', 'binstart', 'bin', 'stmts', 'err')}]
+    r, fails = tlc.judge('asm', 'TilingCases', 'TilingCases.cfg', slim, casefile=os.path.join(wd, 'tiling.json'))
+    rmworkdir('replay-c01')
+    return replaylib.verdict(PID, path, ['pipe:%s:%s range %d-%d opts %s: %s' % (rp.get('kind', '?'), clause, start, end, ' '.join(opts + (['-I', 'Wrap=1'] if wrap else [])),
+                                                                               c['err'] or c['stderr'][:200]) for _, clause in fails])
